@@ -23,6 +23,7 @@ type caseDesc struct {
 }
 
 type env struct {
+	o        *vh.Opts
 	sum      *vh.Summary
 	variants []iox.Variant
 	schemas  map[string]*vh.LoggedSchema
@@ -65,6 +66,7 @@ func (e *env) checkInput(r *vh.Rng, v iox.Variant, in []byte, scheds []iox.Sched
 	for _, p := range interior {
 		inSet[p] = true
 	}
+	vh.Current(e.o, caseDesc{v.Name, v.Schema, hex.EncodeToString(in), scheds[0], nil})
 	base, _ = iox.Run(ls, v.FmtIdx, iox.NewChunkReader(in, scheds[0]), maxReads(in), 2)
 	for _, s := range base {
 		if s.Kind == "panic" || s.Kind == "hang" {
@@ -80,6 +82,8 @@ func (e *env) checkInput(r *vh.Rng, v iox.Variant, in []byte, scheds []iox.Sched
 				break
 			}
 		}
+		scc := sc
+		vh.Current(e.o, caseDesc{v.Name, v.Schema, hex.EncodeToString(in), scheds[0], &scc})
 		got, _ := iox.Run(ls, v.FmtIdx, iox.NewChunkReader(in, sc), maxReads(in), 2)
 		if d := iox.FirstDiff(base, got); d >= 0 {
 			sc := sc
@@ -113,9 +117,9 @@ func main() {
 	o := vh.ParseOpts()
 	r := vh.NewRng(o.Seed)
 	sum := vh.NewSummary("C09", o,
-		"inputs of the seven formats (x encodings, BOM, CRLF, release characters, quote replacing; well-formed and damaged) each run under 9 delivery schedules; "+
+		"inputs of the seven formats (x encodings, BOM, CRLF, release characters, quote replacing; well-formed and damaged) each run under 9 to 15 delivery schedules (whole, 1-byte, random, empty reads, EOF with data, cuts inside every multi-byte unit, first k lines in one chunk then byte-wise, cut right after the JSON/XML top-level value); multi-line fixedlength2 envelopes (rows 2/3/5, header/footer), JSON/XML with data after the top-level value; "+
 			"non-trivial = at least one schedule puts a chunk boundary strictly inside a multi-byte unit (UTF-8 sequence, CR LF, BOM, multi-byte delimiter, release pair); distinct by (variant, input bytes)")
-	e := &env{sum: sum, variants: iox.Variants(), schemas: map[string]*vh.LoggedSchema{}}
+	e := &env{o: o, sum: sum, variants: iox.Variants(), schemas: map[string]*vh.LoggedSchema{}}
 	cw := vh.NewCaseWriter(o, "C09", "Model.Chunk", "ccase", "check_case")
 	cw.PerFile = 24
 
@@ -181,13 +185,24 @@ func main() {
 	}
 
 	// ---- generated inputs x schedules ----
-	total := o.Count(650, 40000)
+	total := o.Count(900, 40000)
 	for c := 0; c < total; c++ {
 		v := e.variants[r.Pick(len(e.variants))]
-		in, kind := iox.GenInput(r, v)
+		gi := iox.GenInput2(r, v)
+		in, kind := gi.In, gi.Kind
 		interior := iox.Interior(in, v.Tokens)
-		scheds := iox.Schedules(r, in, interior)
+		scheds := iox.Schedules2(r, in, interior, gi.Cuts)
 		nt, base := e.checkInput(r, v, in, scheds, interior)
+		if gi.TrailingNonWS && len(base) > 0 {
+			// a complete JSON document followed by non-whitespace: must end in a fatal error
+			// under every schedule (they are all equal to base here, or already reported)
+			if k := base[len(base)-1].Kind; k == "eof" {
+				e.sum.Fail("non-whitespace data after the top-level JSON value, yet the transform ended with a clean io.EOF",
+					caseDesc{v.Name, v.Schema, hex.EncodeToString(in), scheds[0], nil}, map[string]interface{}{"transcript": show(base, len(base)-1)})
+			} else {
+				sum.Hist("trailing-data-ends:" + k)
+			}
+		}
 		sum.Count(v.Name+":"+hex.EncodeToString(in), nt)
 		sum.Hist("variant:" + v.Name)
 		sum.Hist("input:" + kind)
